@@ -283,6 +283,34 @@ def check_eval(ctx, case):
             ctx.count("rejected-text")
             return
     env = decode_ctx(case["ctx"])
+    if case.get("all_rewrites"):
+        # every single rewrite of this tree, evaluated with large integers: payloads that rules put into the
+        # tree (numpy scalars, re-used operands) show when arithmetic leaves the 64-bit range
+        for name, rule in E.rules():
+            for n in A.inorder(root):
+                try:
+                    if not rule.can_apply_to(n):
+                        continue
+                except Exception:
+                    continue
+                ap = E.apply(rule, n)
+                if ap.error is not None or ap.result_root is None or A.audit(ap.result_root) is not None or X.has_nonfinite(ap.result_root):
+                    continue
+                ctx.count("rewrite_results_evaluated")
+                label = text + " | " + name + "@" + E.text_of(n)
+                check_tree_eval(ctx, {**case, "after": f"{name} at {E.text_of(n)}"}, ap.result_root, env, label)
+                # the same result as an operand of arithmetic with integers beyond 64 bits (built with the public constructors)
+                from mathy_core import expressions as M
+
+                if A.kind(ap.result_root) != "EqualExpression":
+                    big = M.AddExpression(M.MultiplyExpression(ap.result_root, M.ConstantExpression(10**30 + 1)), M.ConstantExpression(2**70))
+                    check_tree_eval(ctx, {**case, "after": f"{name} at {E.text_of(n)}", "wrapped": "(result) * (10^30 + 1) + 2^70"}, big, env, label + " | wrapped")
+        return
+    check_tree_eval(ctx, case, root, env, text)
+
+
+def check_tree_eval(ctx, case, root, env, text):
+    """All obligations of C05 on one tree and one assignment."""
     try:
         int_feasible(root, env)
     except Infeasible:
@@ -419,5 +447,16 @@ def replay(ctx, case):
     check_eval(ctx, case)
 
 
+BIG_ENV = {"x": ["int", str(10**18 + 1)], "y": ["int", str(2**63)], "z": ["int", str(-(10**20))], "w": ["int", "3"]}
+
+
 def run(ctx):
+    texts = G.sweep_texts()
+    step = 6 if ctx.tier == "quick" else 1
+    for i, t in enumerate(texts[::step]):
+        if i % ctx.nshards != ctx.shard:
+            continue
+        ctx.count("evaluations")
+        ctx.count("sweep:cases")
+        check_eval(ctx, {"text": t, "ctx": BIG_ENV, "build": "parser", "child_on_left": False, "abs": False, "pre": [], "all_rewrites": True})
     hyp_run(ctx, "evaluations", eval_case(), check_eval, ctx.n(8000, 60000))
